@@ -152,6 +152,8 @@ def config_text(cfg, extra=""):
             out.append("  %s expects %s: %s" % (n, m["expect"][0], src(m["expect"][1])))
         for (ac, sg) in m.get("watches", []):
             out.append("  %s watches %s" % (n, (ac + " " + sg) if ac else sg))
+        if m.get("only_helps"):
+            out.append("  %s only helps" % n)
     out.append("end")
     if extra:
         out.append(extra)
